@@ -187,7 +187,7 @@ fn same_f64(a: f64, b: f64) -> bool { a.to_bits() == b.to_bits() || (a.is_nan() 
 
 // ------------------------------------------------------------------------------------------------ exec
 
-fn macro_dims<T: Elem>(which: &str, d: &[usize]) -> Option<Result<Array<T>, ArrayError>> {
+fn macro_dims<T: Numeric>(which: &str, d: &[usize]) -> Option<Result<Array<T>, ArrayError>> {
     Some(match (which, d.len()) {
         ("zeros", 1) => array_zeros!(T, d[0]), ("zeros", 2) => array_zeros!(T, d[0], d[1]), ("zeros", 3) => array_zeros!(T, d[0], d[1], d[2]),
         ("ones", 1) => array_ones!(T, d[0]), ("ones", 2) => array_ones!(T, d[0], d[1]), ("ones", 3) => array_ones!(T, d[0], d[1], d[2]),
@@ -226,6 +226,36 @@ fn range_term(first: f64, last: f64) -> f64 { let l = (last / first).abs().ln().
 fn small_range(first: f64, last: f64) -> bool { range_term(first, last) == 0.0 && first.abs() >= f64::MIN_POSITIVE && last.abs() >= f64::MIN_POSITIVE }
 fn ulp_scale(scale: f64) -> f64 { scale.abs().max(f64::MIN_POSITIVE) * f64::EPSILON }
 
+/// the element-by-element rules of `seq_verdict`, with the exact values given by a function (the parsed model answer for ordinary
+/// cases, the harness-native rational formula for the giant ones)
+fn seq_check<T: Elem>(e: &[T], n_want: usize, want: &dyn Fn(usize) -> f64, tol: f64, exact_all: bool, endpoint: bool) -> Result<(), String> {
+    if e.len() != n_want { return Err(format!("count {} but the model has {}", e.len(), n_want)); }
+    let n = e.len();
+    for i in 0..n {
+        let (o, x) = (e[i].f(), want(i));
+        let must_be_exact = exact_all || i == 0 || (endpoint && i == n - 1);
+        if T::FLOAT {
+            if must_be_exact { if !same_f64(o, T::of_f(x).f()) { return Err(format!("position {i}: {o:?} but exactly {x:?} is required")); } }
+            else if !((o - x).abs() <= tol) { return Err(format!("position {i}: {o:?} differs from the exact value {x:?} by more than {tol:e}")); }
+        } else {
+            // `N::from(f64)` truncates: accept the truncation of any value within tol of the exact one
+            let (lo, hi) = (T::of_f(x - tol).f(), T::of_f(x + tol).f());
+            // (truncation is monotone: `o` is the truncation of some value within tol of x iff it lies between the truncated ends)
+            let ok = if must_be_exact { o == T::of_f(x).f() } else { o == lo || o == hi || o == T::of_f(x).f() || (o >= lo.min(hi) && o <= lo.max(hi)) };
+            if !ok { return Err(format!("position {i}: {o:?} is not the truncation of {x:?}")); }
+        }
+    }
+    // the statement's own oracle: constant difference (floats; exact arithmetic is what the theorem covers)
+    if T::FLOAT && n >= 3 && !exact_all {
+        let d0 = e[1].f() - e[0].f();
+        for i in 1..n - 1 {
+            let d = e[i + 1].f() - e[i].f();
+            if !((d - d0).abs() <= 2.0 * tol) { return Err(format!("difference at {i} is {d:?}, at 0 it is {d0:?}")); }
+        }
+    }
+    Ok(())
+}
+
 /// linspace / arange: observed against the exact rationals of the model.
 /// `exact_ends`: first (and last when `endpoint`) must be bit-exact; interior within `tol`.
 fn seq_verdict<T: Elem>(r: Result<Array<T>, ArrayError>, expected: &str, tol: f64, exact_all: bool, endpoint: bool) -> Verdict {
@@ -235,37 +265,42 @@ fn seq_verdict<T: Elem>(r: Result<Array<T>, ArrayError>, expected: &str, tol: f6
     let want = match parse_rat_answer(expected) { Some(w) => w, None => return compare_default(obs, expected) };
     let mism = |d: String| Verdict::Mismatch { observed: obs.clone(), detail: d };
     if !consistent(&a) || a.get_shape().unwrap() != vec![e.len()] { return mism("not a consistent 1-D array".into()); }
-    if e.len() != want.len() { return mism(format!("count {} but the model has {}", e.len(), want.len())); }
+    if let Err(d) = seq_check(&e, want.len(), &|i| want[i], tol, exact_all, endpoint) { return mism(d); }
+    Verdict::Match(expected.to_string())
+}
+
+/// the element-by-element rules of `pow_seq_verdict`, with the value of position i given by a function (the model's expression
+/// evaluated natively for ordinary cases, the harness-native formula for the giant ones)
+fn pow_check<T: Elem>(e: &[T], n_want: usize, val: &dyn Fn(usize) -> Result<(f64, String), String>, first: f64, last: f64, endpoint: bool) -> Result<(), String> {
+    if e.len() != n_want { return Err(format!("count {} but the model has {}", e.len(), n_want)); }
     let n = e.len();
     for i in 0..n {
-        let (o, x) = (e[i].f(), want[i]);
-        let must_be_exact = exact_all || i == 0 || (endpoint && i == n - 1);
-        if T::FLOAT {
-            if must_be_exact { if !same_f64(o, T::of_f(x).f()) { return mism(format!("position {i}: {o:?} but exactly {x:?} is required")); } }
-            else if !((o - x).abs() <= tol) { return mism(format!("position {i}: {o:?} differs from the exact value {x:?} by more than {tol:e}")); }
-        } else {
-            // `N::from(f64)` truncates: accept the truncation of any value within tol of the exact one
-            let (lo, hi) = (T::of_f(x - tol).f(), T::of_f(x + tol).f());
-            // (truncation is monotone: `o` is the truncation of some value within tol of x iff it lies between the truncated ends)
-            let ok = if must_be_exact { o == T::of_f(x).f() } else { o == lo || o == hi || o == T::of_f(x).f() || (o >= lo.min(hi) && o <= lo.max(hi)) };
-            if !ok { return mism(format!("position {i}: {o:?} is not the truncation of {x:?}")); }
-        }
+        let (v, how) = val(i)?;
+        let w = T::of_f(v).f();
+        if !same_f64(e[i].f(), w) { return Err(format!("position {i}: {:?} but {how} evaluates to {:?}", e[i].f(), w)); }
     }
-    // the statement's own oracle: constant difference (floats; exact arithmetic is what the theorem covers)
-    if T::FLOAT && n >= 3 && !exact_all {
-        let d0 = e[1].f() - e[0].f();
+    // (subnormal elements carry fewer bits: only count, first, last and the bit-exact expression are compared there)
+    if T::FLOAT && n >= 2 && e.iter().all(|x| x.f().is_finite() && x.f() != 0.0) && (small_range(first, last) || e.iter().all(|x| x.f().abs() >= T::MINPOS)) {
+        if !same_f64(e[0].f(), T::of_f(first).f()) { return Err(format!("first element {:?}, start value {:?}", e[0].f(), first)); }
+        if endpoint && !same_f64(e[n - 1].f(), T::of_f(last).f()) { return Err(format!("last element {:?}, stop value {:?}", e[n - 1].f(), last)); }
+        // constant ratio: powf is accurate to ~1 ulp, the rounding of the common ratio is amplified by the exponent
+        // beyond a range of e^50 the rounding of the exponent 1/d is amplified by ln(stop/start): x^(1/d + delta) = x^(1/d) * e^(delta ln x)
+        let tol = (8.0 * (n as f64 + 4.0) + range_term(first, last)) * T::EPS;
+        let q0 = e[1].f() / e[0].f();
         for i in 1..n - 1 {
-            let d = e[i + 1].f() - e[i].f();
-            if !((d - d0).abs() <= 2.0 * tol) { return mism(format!("difference at {i} is {d:?}, at 0 it is {d0:?}")); }
+            let q = e[i + 1].f() / e[i].f();
+            if !(((q - q0) / q0).abs() <= tol) { return Err(format!("ratio at {i} is {q:?}, at 0 it is {q0:?} (relative tolerance {tol:e})")); }
         }
     }
-    Verdict::Match(expected.to_string())
+    Ok(())
 }
 
 /// geomspace / logspace: every element is the model's expression evaluated natively (bit-exact after the cast),
 /// and for f64 the statement's oracle: first, last, constant ratio within a relative tolerance.
+/// `native`: the harness-native formula of the same sequence (used alone on the giant cases) — compared bit-wise with the model's
+/// expression at every position of every ordinary case, so that it is validated against the model in the same run.
 fn pow_seq_verdict<T: Elem>(r: Result<Array<T>, ArrayError>, expected: &str, st: f64, tp: f64, base: f64,
-                            first: f64, last: f64, endpoint: bool) -> Verdict {
+                            first: f64, last: f64, endpoint: bool, native: Option<&dyn Fn(usize) -> f64>) -> Verdict {
     let a = match r { Ok(a) => a, Err(e) => return compare_default(format!("err {}", err_name(&e)), expected) };
     let e: Vec<T> = a.get_elements().unwrap();
     let obs = format!("ok {}:{}", show_list(&a.get_shape().unwrap()), if e.is_empty() { "-".into() } else { e.iter().map(|x| format!("{:?}", x.f())).collect::<Vec<_>>().join(",") });
@@ -273,28 +308,74 @@ fn pow_seq_verdict<T: Elem>(r: Result<Array<T>, ArrayError>, expected: &str, st:
     let exprs: Vec<&str> = if body == "-" { vec![] } else { body.split(';').collect() };
     let mism = |d: String| Verdict::Mismatch { observed: obs.clone(), detail: d };
     if !consistent(&a) || a.get_shape().unwrap() != vec![e.len()] { return mism("not a consistent 1-D array".into()); }
-    if e.len() != exprs.len() { return mism(format!("count {} but the model has {}", e.len(), exprs.len())); }
-    let n = e.len();
-    for i in 0..n {
+    let val = |i: usize| -> Result<(f64, String), String> {
         let mut pos = 0;
-        let v = match eval_expr(exprs[i].as_bytes(), &mut pos, st, tp, base) { Some(v) if pos == exprs[i].len() => v, _ => return mism(format!("harness cannot evaluate `{}`", exprs[i])) };
-        let w = T::of_f(v).f();
-        if !same_f64(e[i].f(), w) { return mism(format!("position {i}: {:?} but the model's expression `{}` evaluates to {:?}", e[i].f(), exprs[i], w)); }
-    }
-    // (subnormal elements carry fewer bits: only count, first, last and the bit-exact expression are compared there)
-    if T::FLOAT && n >= 2 && e.iter().all(|x| x.f().is_finite() && x.f() != 0.0) && (small_range(first, last) || e.iter().all(|x| x.f().abs() >= T::MINPOS)) {
-        if !same_f64(e[0].f(), T::of_f(first).f()) { return mism(format!("first element {:?}, start value {:?}", e[0].f(), first)); }
-        if endpoint && !same_f64(e[n - 1].f(), T::of_f(last).f()) { return mism(format!("last element {:?}, stop value {:?}", e[n - 1].f(), last)); }
-        // constant ratio: powf is accurate to ~1 ulp, the rounding of the common ratio is amplified by the exponent
-        // beyond a range of e^50 the rounding of the exponent 1/d is amplified by ln(stop/start): x^(1/d + delta) = x^(1/d) * e^(delta ln x)
-        let tol = (8.0 * (n as f64 + 4.0) + range_term(first, last)) * T::EPS;
-        let q0 = e[1].f() / e[0].f();
-        for i in 1..n - 1 {
-            let q = e[i + 1].f() / e[i].f();
-            if !(((q - q0) / q0).abs() <= tol) { return mism(format!("ratio at {i} is {q:?}, at 0 it is {q0:?} (relative tolerance {tol:e})")); }
+        match eval_expr(exprs[i].as_bytes(), &mut pos, st, tp, base) { Some(v) if pos == exprs[i].len() => Ok((v, format!("the model's expression `{}`", exprs[i]))), _ => Err(format!("harness cannot evaluate `{}`", exprs[i])) }
+    };
+    if let Err(d) = pow_check(&e, exprs.len(), &val, first, last, endpoint) { return mism(d); }
+    if let Some(nat) = native {
+        for i in 0..exprs.len() {
+            let v = val(i).map(|x| x.0).unwrap_or(f64::NAN);
+            if !same_f64(v, nat(i)) { return mism(format!("ORACLE-VS-MODEL position {i}: the harness-native formula gives {:?}, the model's expression `{}` {:?} (harness defect: the reference is not usable)", nat(i), exprs[i], v)); }
         }
+        SEQ_OK.with(|c| c.set(c.get() + 1));
     }
     Verdict::Match(expected.to_string())
+}
+
+// ---- harness-native formulas of the sequences (exact rationals for arange / linspace, the f64 expression for the powf-based ones)
+
+/// linspace on whole-number bounds: (count, endpoint, exact value of position i as a correctly rounded f64).  `None` when a part
+/// does not fit 2^53 (then the quotient of the two f64 images would not be the correctly rounded value)
+fn nat_linspace(s: i64, t: i64, num: Option<usize>, endpoint: Option<bool>) -> Option<(usize, bool, Box<dyn Fn(usize) -> f64>)> {
+    let (num, ep) = (num.unwrap_or(50), endpoint.unwrap_or(true));
+    let d = num.saturating_sub(ep as usize) as i128;
+    let lim = 1i128 << 53;
+    let worst = (s as i128 * d).abs() + (num as i128) * (t as i128 - s as i128).abs();
+    if d >= lim || worst >= lim { return None }
+    Some((num, ep, Box::new(move |i| {
+        if ep && i + 1 == num { return t as f64 }
+        if d == 0 { return s as f64 }
+        (s as i128 * d + i as i128 * (t as i128 - s as i128)) as f64 / d as f64
+    })))
+}
+/// arange on whole-number bounds with a whole step >= 1: floor((stop + 1 - start) / step) terms start + i * step
+fn nat_arange(s: i64, t: i64, step: Option<i64>) -> Option<(usize, Box<dyn Fn(usize) -> f64>)> {
+    let st = step.unwrap_or(1);
+    if st < 1 { return None }
+    let span = t as i128 + 1 - s as i128;
+    let cnt = if span <= 0 { 0 } else { (span / st as i128) as usize };
+    if (s as i128).abs() + cnt as i128 * st as i128 >= 1i128 << 53 { return None }
+    Some((cnt, Box::new(move |i| (s as i128 + i as i128 * st as i128) as f64)))
+}
+/// `first * ((last / first)^(1/d))^i`, the last position replaced by `last` with the endpoint (geomspace on start / stop,
+/// logspace on base^start / base^stop)
+fn nat_geom(first: f64, last: f64, num: Option<usize>, endpoint: Option<bool>) -> (usize, bool, Box<dyn Fn(usize) -> f64>) {
+    let (num, ep) = (num.unwrap_or(50), endpoint.unwrap_or(true));
+    let d = num.saturating_sub(ep as usize);
+    // (the model's exact `1 / 0` is 0; positions that use it do not exist: num = 0, or num = 1 with the endpoint)
+    let ratio = (last / first).powf(if d == 0 { 0.0 } else { 1.0 / d as f64 });
+    (num, ep, Box::new(move |i| if ep && i + 1 == num { last } else { first * ratio.powf(i as f64) }))
+}
+fn whole(s: &str) -> Option<i64> { s.parse::<i64>().ok() }
+
+/// "the base raised to evenly spaced exponents": compare with base^(linspace_i) natively
+fn logspace_stmt_check<T: Elem>(el: &[T], sv: f64, tv: f64, bf: f64, ep: bool) -> Option<(String, String)> {
+    let num = el.len();
+    if num >= 2 {
+        let d = (num - ep as usize) as f64;
+        for i in 0..num {
+            let x = sv + (i as f64) * (tv - sv) / d;
+            let w = bf.powf(x);
+            // the native reference itself rounds its exponent: relative error |x| ln(b) eps/2, negligible in the small scope (|x| <= 8)
+            let exp_term = { let t = 2.0 * x.abs() * bf.ln(); if t > 50.0 { t } else { 0.0 } };
+            let tol = (64.0 * (num as f64) + range_term(bf.powf(sv), bf.powf(tv)) + exp_term) * T::EPS;
+            if w.is_finite() && w != 0.0 && w.abs() >= T::MINPOS && !(((el[i].f() - w) / w).abs() <= tol) {
+                return Some((format!("{:?}", el[i].f()), format!("position {i}: base^exponent is {w:?} (relative tolerance {tol:e})")));
+            }
+        }
+    }
+    None
 }
 
 fn run<T: Elem>(op: &str, a: &[&str], expected: &str) -> Option<Verdict> {
@@ -341,7 +422,19 @@ fn run<T: Elem>(op: &str, a: &[&str], expected: &str) -> Option<Verdict> {
             let r = try_run(move || if is_macro { match st { None => array_arange!(T, s, t), Some(x) => array_arange!(T, s, t, x) } } else { Array::<T>::arange(s, t, st) });
             match r {
                 Err(_) => cmp("panic".into()),
-                Ok(r) => Some(seq_verdict(r, expected, 0.0, true, false)),
+                Ok(r) => {
+                    let v = seq_verdict(r, expected, 0.0, true, false);
+                    // the native formula of the giant cases, validated against the model's answer
+                    if let (Verdict::Match(_), Some(s0), Some(t0), Some(st0)) = (&v, whole(a[0]), whole(a[1]), if a[2] == "none" { Some(None) } else { whole(a[2]).map(Some) }) {
+                        if let (Some((cnt, f)), Some(want)) = (nat_arange(s0, t0, st0), parse_rat_answer(expected)) {
+                            if cnt != want.len() || (0..cnt).any(|i| !same_f64(f(i), want[i])) {
+                                return Some(Verdict::Mismatch { observed: format!("native arange: {cnt} terms"), detail: format!("ORACLE-VS-MODEL the harness-native arange formula disagrees with the model answer `{}` (harness defect: the reference is not usable)", truncate(expected, 200)) });
+                            }
+                            SEQ_OK.with(|c| c.set(c.get() + 1));
+                        }
+                    }
+                    Some(v)
+                }
             }
         }
         "linspace" => {
@@ -351,7 +444,18 @@ fn run<T: Elem>(op: &str, a: &[&str], expected: &str) -> Option<Verdict> {
             match r {
                 Err(_) => cmp("panic".into()),
                 // beyond the i64 scope the exact rationals of the model are converted by the big-integer division (another half ulp)
-                Ok(r) => Some(seq_verdict(r, expected, (if small_args(&a[..2]) { 4.0 } else { 8.0 }) * ulp_scale(s.abs().max(t.abs())) * (T::EPS / f64::EPSILON), false, e.unwrap_or(true))),
+                Ok(r) => {
+                    let v = seq_verdict(r, expected, (if small_args(&a[..2]) { 4.0 } else { 8.0 }) * ulp_scale(s.abs().max(t.abs())) * (T::EPS / f64::EPSILON), false, e.unwrap_or(true));
+                    if let (Verdict::Match(_), Some(s0), Some(t0)) = (&v, whole(a[0]), whole(a[1])) {
+                        if let (Some((cnt, _, f)), Some(want)) = (nat_linspace(s0, t0, n, e), parse_rat_answer(expected)) {
+                            if cnt != want.len() || (0..cnt).any(|i| !same_f64(f(i), want[i])) {
+                                return Some(Verdict::Mismatch { observed: format!("native linspace: {cnt} points"), detail: format!("ORACLE-VS-MODEL the harness-native linspace formula disagrees with the model answer `{}` (harness defect: the reference is not usable)", truncate(expected, 200)) });
+                            }
+                            SEQ_OK.with(|c| c.set(c.get() + 1));
+                        }
+                    }
+                    Some(v)
+                }
             }
         }
         "geomspace" => {
@@ -360,7 +464,10 @@ fn run<T: Elem>(op: &str, a: &[&str], expected: &str) -> Option<Verdict> {
             let r = try_run(move || Array::<T>::geomspace(sv, tv, n, e));
             match r {
                 Err(_) => cmp("panic".into()),
-                Ok(r) => Some(pow_seq_verdict(r, expected, sv.f(), tv.f(), 0.0, sv.f(), tv.f(), e.unwrap_or(true))),
+                Ok(r) => {
+                    let nat = nat_geom(sv.f(), tv.f(), n, e).2;
+                    Some(pow_seq_verdict(r, expected, sv.f(), tv.f(), 0.0, sv.f(), tv.f(), e.unwrap_or(true), if small_args(&a[..2]) { Some(&*nat) } else { None }))
+                }
             }
         }
         "logspace" => {
@@ -372,25 +479,11 @@ fn run<T: Elem>(op: &str, a: &[&str], expected: &str) -> Option<Verdict> {
                 Err(_) => cmp("panic".into()),
                 // in the expressions S/T are unused; the leaves are P(B, start) and P(B, stop)
                 Ok(r) => {
-                    let v = pow_seq_verdict(r.clone(), expected, 0.0, 0.0, bf, bf.powf(sv.f()), bf.powf(tv.f()), e.unwrap_or(true));
+                    // the native formula is the model's only when start / stop cross the boundary as whole numbers (`P(B, n/d)` divides)
+                    let nat = nat_geom(bf.powf(sv.f()), bf.powf(tv.f()), n, e).2;
+                    let v = pow_seq_verdict(r.clone(), expected, 0.0, 0.0, bf, bf.powf(sv.f()), bf.powf(tv.f()), e.unwrap_or(true), if whole(a[0]).is_some() && whole(a[1]).is_some() { Some(&*nat) } else { None });
                     if let (Verdict::Match(_), true, Ok(arr)) = (&v, T::FLOAT, &r) {
-                        // "the base raised to evenly spaced exponents": compare with base^(linspace_i) natively
-                        let el = arr.get_elements().unwrap();
-                        let num = el.len();
-                        let ep = e.unwrap_or(true);
-                        if num >= 2 {
-                            let d = (num - ep as usize) as f64;
-                            for i in 0..num {
-                                let x = sv.f() + (i as f64) * (tv.f() - sv.f()) / d;
-                                let w = bf.powf(x);
-                                // the native reference itself rounds its exponent: relative error |x| ln(b) eps/2, negligible in the small scope (|x| <= 8)
-                                let exp_term = { let t = 2.0 * x.abs() * bf.ln(); if t > 50.0 { t } else { 0.0 } };
-                                let tol = (64.0 * (num as f64) + range_term(bf.powf(sv.f()), bf.powf(tv.f())) + exp_term) * T::EPS;
-                                if w.is_finite() && w != 0.0 && w.abs() >= T::MINPOS && !(((el[i].f() - w) / w).abs() <= tol) {
-                                    return Some(Verdict::Mismatch { observed: format!("{:?}", el[i].f()), detail: format!("position {i}: base^exponent is {w:?} (relative tolerance {tol:e})") });
-                                }
-                            }
-                        }
+                        if let Some((observed, detail)) = logspace_stmt_check(&arr.get_elements().unwrap(), sv.f(), tv.f(), bf, e.unwrap_or(true)) { return Some(Verdict::Mismatch { observed, detail }); }
                     }
                     Some(v)
                 }
@@ -417,6 +510,9 @@ trait VElem: Numeric {
     /// bit-level identity (every NaN alike; -0.0 differs from +0.0)
     fn key(&self) -> u128;
     fn shw(&self) -> String;
+    /// image of a tag in the GIANT streams: injective on the tags of a giant array wherever the type is wide enough (bit BITS-2 set, so
+    /// never zero and, on the 64-bit types, beyond what an f64 round trip keeps); the small-scope palette otherwise
+    fn gp(t: i64) -> Self { Self::pal(t) }
 }
 macro_rules! velem_signed { ($($t:ty),*) => { $( impl VElem for $t {
     fn pal(t: i64) -> Self {
@@ -432,6 +528,7 @@ macro_rules! velem_signed { ($($t:ty),*) => { $( impl VElem for $t {
     }
     fn key(&self) -> u128 { (*self as i128) as u128 }
     fn shw(&self) -> String { format!("{}", self) }
+    fn gp(t: i64) -> Self { if <$t>::BITS >= 32 { (t as $t) | ((1 as $t) << (<$t>::BITS - 2)) } else { Self::pal(t) } }
 } )* } }
 macro_rules! velem_unsigned { ($($t:ty),*) => { $( impl VElem for $t {
     fn pal(t: i64) -> Self {
@@ -445,6 +542,7 @@ macro_rules! velem_unsigned { ($($t:ty),*) => { $( impl VElem for $t {
     }
     fn key(&self) -> u128 { *self as u128 }
     fn shw(&self) -> String { format!("{}", self) }
+    fn gp(t: i64) -> Self { if <$t>::BITS >= 32 { (t as $t) | ((1 as $t) << (<$t>::BITS - 2)) } else { Self::pal(t) } }
 } )* } }
 velem_signed!(i8, i16, i32, i64, isize);
 velem_unsigned!(u8, u16, u32, u64, usize);
@@ -457,6 +555,7 @@ impl VElem for f64 {
     }
     fn key(&self) -> u128 { if self.is_nan() { u128::MAX } else { self.to_bits() as u128 } }
     fn shw(&self) -> String { format!("{:?}", self) }
+    fn gp(t: i64) -> Self { match t % 64 { 7 => -0.0, 9 => f64::NAN, 11 => f64::NEG_INFINITY, _ => t as f64 + 0.25 } }
 }
 impl VElem for f32 {
     fn pal(t: i64) -> Self {
@@ -467,6 +566,7 @@ impl VElem for f32 {
     }
     fn key(&self) -> u128 { if self.is_nan() { u128::MAX } else { self.to_bits() as u128 } }
     fn shw(&self) -> String { format!("{:?}", self) }
+    fn gp(t: i64) -> Self { match t % 64 { 7 => -0.0, 9 => f32::NAN, 11 => f32::NEG_INFINITY, _ => t as f32 + 0.5 } }
 }
 const VTYPES: [&str; 12] = ["i8v", "i16v", "i32v", "i64v", "isizev", "u8v", "u16v", "u32v", "u64v", "usizev", "f32v", "f64v"];
 
@@ -536,6 +636,325 @@ fn run_v<T: VElem>(op: &str, a: &[&str], expected: &str) -> Option<Verdict> {
     }
 }
 
+// ------------------------------------------------------------------------------------------------ part 3: harness-native reference
+
+use std::rc::Rc;
+type At = Rc<dyn Fn(usize) -> i64>;
+/// the native reference's answer at MODEL level (integers: tags of the source, fill values, 0 / 1), as a coordinate formula:
+/// nothing is materialised, so the same code answers a 2 x 2 and a 1031 x 1033 case
+struct Ora { shape: Vec<usize>, at: At, tags: bool }
+impl Ora { fn count(&self) -> usize { self.shape.iter().product() } }
+
+/// a source array named in a case line, without building it: `i<shape>[+off]` (tag p + off at flat position p), explicit values, or
+/// (giant lines only) `m<k>x<shape>`: the value p mod k at flat position p
+fn src_of(s: &str) -> (Vec<usize>, At) {
+    if let Some(body) = s.strip_prefix('m') {
+        let (k, sh) = body.split_once('x').unwrap();
+        let k: usize = k.parse().unwrap();
+        (parse_usize_list(sh), Rc::new(move |p| (p % k) as i64))
+    } else if let Some(body) = s.strip_prefix('i') {
+        let (sh, off) = match body.split_once('+') { Some((a, b)) => (a, b.parse::<i64>().unwrap()), None => (body, 0) };
+        (parse_usize_list(sh), Rc::new(move |p| p as i64 + off))
+    } else { let (sh, v) = parse_arr_raw(s); (sh, Rc::new(move |p| v[p])) }
+}
+
+fn ora_diag(shape: &[usize], src: At, k: i128) -> Result<Ora, ()> {
+    match shape.len() {
+        1 => {
+            let (n, ak) = (shape[0] as u128, k.unsigned_abs());
+            let side = n + ak;
+            if side > usize::MAX as u128 || side * side > usize::MAX as u128 { return Err(()) }
+            let (side, n, ak) = (side as usize, n as usize, ak as usize);
+            Ok(Ora { shape: vec![side, side], tags: true, at: Rc::new(move |p| {
+                let (i, j) = (p / side, p % side);
+                if k >= 0 { if j == i + ak && i < n { src(i) } else { 0 } } else if i == j + ak && j < n { src(j) } else { 0 }
+            }) })
+        }
+        2 => {
+            let (rows, cols) = (shape[0], shape[1]);
+            let ak = k.unsigned_abs().min(usize::MAX as u128) as usize;
+            let (sr, sc) = if k >= 0 { (0, ak) } else { (ak, 0) };
+            let len = rows.saturating_sub(sr).min(cols.saturating_sub(sc));
+            Ok(Ora { shape: vec![len], tags: true, at: Rc::new(move |t| src((sr + t) * cols + sc + t)) })
+        }
+        _ => Err(()),
+    }
+}
+
+/// `None` = the reference has no opinion on this operation (sequences and rand have their own native formulas)
+fn oracle(op: &str, a: &[&str]) -> Option<Result<Ora, ()>> {
+    let int = |s: &str| s.parse::<i128>().ok();
+    let opt_int = |s: &str| if s == "none" { Some(None) } else { s.parse::<i128>().ok().map(Some) };
+    let konst = |shape: Vec<usize>, v: i64, tags: bool| -> Option<Result<Ora, ()>> { Some(Ok(Ora { shape, tags, at: Rc::new(move |_| v) })) };
+    match op {
+        "full" | "m_full" => konst(parse_usize_list(a[0]), a[1].parse().ok()?, true),
+        "zeros" | "m_zeros" => konst(parse_usize_list(a[0]), 0, false),
+        "ones" | "m_ones" => konst(parse_usize_list(a[0]), 1, false),
+        "full_like" => konst(src_of(a[0]).0, a[1].parse().ok()?, true),
+        "zeros_like" => konst(src_of(a[0]).0, 0, false),
+        "ones_like" => konst(src_of(a[0]).0, 1, false),
+        "eye" | "m_eye" => {
+            let n: usize = a[0].parse().ok()?;
+            let m = opt_int(a[1])?.map_or(n, |x| x as usize);
+            let k = opt_int(a[2])?.unwrap_or(0);
+            Some(Ok(Ora { shape: vec![n, m], tags: false, at: Rc::new(move |p| ((p % m) as i128 == (p / m) as i128 + k) as i64) }))
+        }
+        "identity" | "m_identity" => { let n: usize = a[0].parse().ok()?; Some(Ok(Ora { shape: vec![n, n], tags: false, at: Rc::new(move |p| (p / n == p % n) as i64) })) }
+        "tri" => {
+            let n: usize = a[0].parse().ok()?;
+            let m = opt_int(a[1])?.map_or(n, |x| x as usize);
+            let k = opt_int(a[2])?.unwrap_or(0);
+            Some(Ok(Ora { shape: vec![n, m], tags: false, at: Rc::new(move |p| ((p % m) as i128 <= (p / m) as i128 + k) as i64) }))
+        }
+        "tril" | "triu" | "tril_plus_triu" => {
+            let (sh, src) = src_of(a[0]);
+            let k = if op == "tril_plus_triu" { int(a[1])? } else { opt_int(a[1])?.unwrap_or(0) };
+            if sh.len() < 2 { return Some(Err(())) }
+            let (rows, cols) = (sh[sh.len() - 2], sh[sh.len() - 1]);
+            let mode = match op { "tril" => 0, "triu" => 1, _ => 2 };
+            Some(Ok(Ora { shape: sh, tags: true, at: Rc::new(move |p| {
+                let (i, j) = (((p / cols) % rows) as i128, (p % cols) as i128);
+                let keep = match mode { 0 => j <= i + k, 1 => j >= i + k, _ => true };
+                if keep { src(p) } else { 0 }
+            }) }))
+        }
+        "diag" => { let (sh, src) = src_of(a[0]); Some(ora_diag(&sh, src, opt_int(a[1])?.unwrap_or(0))) }
+        "diagflat" => { let (sh, src) = src_of(a[0]); Some(ora_diag(&[sh.iter().product()], src, opt_int(a[1])?.unwrap_or(0))) }
+        "diag_diag" => {
+            let (sh, src) = src_of(a[0]);
+            let k = opt_int(a[1])?.unwrap_or(0);
+            Some(ora_diag(&sh, src, k).and_then(|o| ora_diag(&o.shape.clone(), o.at, k)))
+        }
+        "vander" => {
+            let (sh, src) = src_of(a[0]);
+            if sh.len() != 1 { return Some(Err(())) }
+            let cols = opt_int(a[1])?.map_or(sh[0], |x| x as usize);
+            let inc = opt_bool(a[2])?.unwrap_or(false);
+            // i64::MIN = "the power does not fit": the validation then has no opinion
+            Some(Ok(Ora { shape: vec![sh[0], cols], tags: true, at: Rc::new(move |p| {
+                let (i, c) = (p / cols, p % cols);
+                src(i).checked_pow((if inc { c } else { cols - c - 1 }) as u32).unwrap_or(i64::MIN)
+            }) }))
+        }
+        _ => None,
+    }
+}
+
+thread_local! {
+    /// ordinary cases on which the native reference agreed with the model's full answer / had no opinion; sequence cases on which the
+    /// native sequence formulas agreed with the model; giant cases judged by the reference alone, and the time they took
+    static ORA_OK: std::cell::Cell<u64> = const { std::cell::Cell::new(0) };
+    static ORA_NONE: std::cell::Cell<u64> = const { std::cell::Cell::new(0) };
+    static SEQ_OK: std::cell::Cell<u64> = const { std::cell::Cell::new(0) };
+    static GIANT: std::cell::Cell<u64> = const { std::cell::Cell::new(0) };
+    static GIANT_MS: std::cell::Cell<u64> = const { std::cell::Cell::new(0) };
+}
+
+/// compare the native reference with the model's answer of an ordinary case; `Some(detail)` = they disagree
+fn validate_oracle(op: &str, a: &[&str], expected: &str) -> Option<String> {
+    let none = || { ORA_NONE.with(|c| c.set(c.get() + 1)); None };
+    let o = match std::panic::catch_unwind(std::panic::AssertUnwindSafe(|| oracle(op, a))) { Ok(Some(o)) => o, _ => return none() };
+    match (o, class_of(expected)) {
+        (_, "panic") => none(),
+        (Err(()), "err") => { ORA_OK.with(|c| c.set(c.get() + 1)); None }
+        (Err(()), _) => Some(format!("the reference refuses the call, the model says `{}`", truncate(expected, 200))),
+        (Ok(_), "err") => Some(format!("the reference accepts the call, the model says `{expected}`")),
+        (Ok(o), "ok") => {
+            let Some((sh, el)) = expected[3..].split_once(':') else { return none() };
+            if parse_usize_list(sh) != o.shape { return Some(format!("the reference has shape {}, the model {sh}", show_list(&o.shape))) }
+            let n = o.count();
+            // every case up to 2 000 elements, one in four up to 20 000, one in sixteen of the larger ones (those are judged by the model itself)
+            let pick = n + a.len() + a.iter().map(|x| x.len()).sum::<usize>();
+            if n > 400_000 || (n > 20_000 && pick % 16 != 0) || (n > 2_000 && pick % 4 != 0) { return none() }
+            let mut p = 0usize;
+            if el != "-" {
+                for t in el.split(',') {
+                    let Ok(m) = t.parse::<i64>() else { return none() };
+                    if p >= n { return Some(format!("the model has more than the reference's {n} elements")) }
+                    let w = (o.at)(p);
+                    if w == i64::MIN { return none() }
+                    if w != m { return Some(format!("flat position {p}: the reference has {w}, the model {m}")) }
+                    p += 1;
+                }
+            }
+            if p != n { return Some(format!("the model has {p} elements, the reference {n}")) }
+            ORA_OK.with(|c| c.set(c.get() + 1));
+            None
+        }
+        _ => none(),
+    }
+}
+
+/// in-place comparison of a giant result with the reference (nothing is formatted; only the first differing position is reported)
+fn cmp_giant<T: VElem>(r: &Result<Array<T>, ArrayError>, want: &Result<Ora, ()>) -> Verdict {
+    let mism = |observed: String, detail: String| Verdict::Mismatch { observed, detail: format!("giant case, harness-native reference: {detail}") };
+    match (r, want) {
+        (Err(e), Err(())) => Verdict::Match(format!("err {} (giant: refused, as the reference demands)", err_name(e))),
+        (Err(e), Ok(o)) => mism(format!("err {}", err_name(e)), format!("the reference has a result of shape {}", show_list(&o.shape))),
+        (Ok(a), Err(())) => mism(format!("ok shape {}", show_list(&a.get_shape().unwrap())), "the reference refuses the call".into()),
+        (Ok(a), Ok(o)) => {
+            let obs = format!("ok shape {} (giant result, not printed)", show_list(&a.get_shape().unwrap()));
+            if !consistent(a) { return mism(obs, "shape/count inconsistent (C01 monitor)".into()) }
+            if a.get_shape().unwrap() != o.shape { return mism(obs, format!("shape: the reference has {}", show_list(&o.shape))) }
+            let e = a.get_elements().unwrap();
+            if e.len() != o.count() { return mism(obs, format!("{} elements, the reference has {}", e.len(), o.count())) }
+            for (p, x) in e.iter().enumerate() {
+                let m = (o.at)(p);
+                let w: T = if o.tags { if m == 0 { T::zero() } else { T::gp(m) } } else if m == 0 { T::zero() } else { T::one() };
+                if x.key() != w.key() { return mism(obs, format!("flat position {p}: {} instead of {} (bit-wise; reference value {m})", x.shw(), w.shw())) }
+            }
+            Verdict::Match(format!("ok native (giant: shape {}, {} elements compared in place with the harness-native reference)", show_list(&o.shape), e.len()))
+        }
+    }
+}
+
+/// a giant structural case on a value-class element type: the source holds `gp(tag)`, tag 0 never occurs in a source
+fn giant_v<T: VElem>(op: &str, a: &[&str]) -> Option<Verdict> {
+    let want = oracle(op, a)?;
+    let arr = |s: &str| -> Array<T> { let (sh, src) = src_of(s); let n: usize = sh.iter().product(); Array::new((0..n).map(|p| T::gp(src(p))).collect(), sh).expect("harness: giant source") };
+    let r: Result<Result<Array<T>, ArrayError>, ()> = match op {
+        "full" => { let s = parse_usize_list(a[0]); let v = T::gp(a[1].parse().ok()?); try_run(|| Array::<T>::full(s, v)) }
+        "m_full" => { let s = parse_usize_list(a[0]); let v = T::gp(a[1].parse().ok()?); try_run(|| array_full!(T, s, v)) }
+        "full_like" => { let o = arr(a[0]); let v = T::gp(a[1].parse().ok()?); try_run(|| Array::<T>::full_like(&o, v)) }
+        "zeros" => { let s = parse_usize_list(a[0]); try_run(|| Array::<T>::zeros(s)) }
+        "ones" => { let s = parse_usize_list(a[0]); try_run(|| Array::<T>::ones(s)) }
+        "m_zeros" => { let d = parse_usize_list(a[0]); match try_run(|| macro_dims::<T>("zeros", &d)) { Ok(Some(r)) => Ok(r), Ok(None) => return None, Err(()) => Err(()) } }
+        "m_ones" => { let d = parse_usize_list(a[0]); match try_run(|| macro_dims::<T>("ones", &d)) { Ok(Some(r)) => Ok(r), Ok(None) => return None, Err(()) => Err(()) } }
+        "zeros_like" => { let o = arr(a[0]); try_run(|| Array::<T>::zeros_like(&o)) }
+        "ones_like" => { let o = arr(a[0]); try_run(|| Array::<T>::ones_like(&o)) }
+        "eye" => { let n: usize = a[0].parse().ok()?; let (m, k) = (opt_usize(a[1])?, opt_usize(a[2])?); try_run(|| Array::<T>::eye(n, m, k)) }
+        "m_eye" => { let n: usize = a[0].parse().ok()?; let (m, k) = (opt_usize(a[1])?, opt_usize(a[2])?); try_run(|| match (m, k) { (None, _) => array_eye!(T, n), (Some(m), None) => array_eye!(T, n, m), (Some(m), Some(k)) => array_eye!(T, n, m, k) }) }
+        "identity" => { let n: usize = a[0].parse().ok()?; try_run(|| Array::<T>::identity(n)) }
+        "m_identity" => { let n: usize = a[0].parse().ok()?; try_run(|| array_identity!(T, n)) }
+        "tri" => { let n: usize = a[0].parse().ok()?; let (m, k) = (opt_usize(a[1])?, opt_isize(a[2])?); try_run(|| Array::<T>::tri(n, m, k)) }
+        "tril" => { let o = arr(a[0]); let k = opt_isize(a[1])?; try_run(|| o.tril(k)) }
+        "triu" => { let o = arr(a[0]); let k = opt_isize(a[1])?; try_run(|| o.triu(k)) }
+        "tril_plus_triu" => {
+            let o = arr(a[0]); let k: isize = a[1].parse().ok()?;
+            let (l, u) = match try_run(|| (o.tril(Some(k)), o.triu(Some(k.saturating_add(1))))) {
+                Err(()) => return Some(Verdict::Mismatch { observed: "panic".into(), detail: "giant case: tril / triu panicked".into() }),
+                Ok((Err(e), _)) | Ok((_, Err(e))) => return Some(cmp_giant::<T>(&Err(e), &want)),
+                Ok((Ok(l), Ok(u))) => (l, u) };
+            if l.get_shape().unwrap() != u.get_shape().unwrap() || l.get_shape().unwrap() != o.get_shape().unwrap() { return Some(Verdict::Mismatch { observed: "ok (giant parts)".into(), detail: "the two parts and the input differ in shape".into() }) }
+            let (x, le, ue) = (o.get_elements().unwrap(), l.get_elements().unwrap(), u.get_elements().unwrap());
+            if le.len() != x.len() || ue.len() != x.len() { return Some(Verdict::Mismatch { observed: "ok (giant parts)".into(), detail: "the two parts and the input differ in element count".into() }) }
+            let z = T::zero().key();
+            for p in 0..x.len() {
+                let lower = le[p].key() == x[p].key() && ue[p].key() == z;
+                let upper = ue[p].key() == x[p].key() && le[p].key() == z;
+                if lower == upper { return Some(Verdict::Mismatch { observed: format!("ok lower {} upper {}", le[p].shw(), ue[p].shw()), detail: format!("giant case, flat position {p}: input {} is not held (bit-wise) by exactly one of tril(k), triu(k+1) with exact zero in the other", x[p].shw()) }) }
+            }
+            Ok(Ok(o))
+        }
+        "diag" => { let o = arr(a[0]); let k = opt_isize(a[1])?; try_run(|| o.diag(k)) }
+        "diagflat" => { let o = arr(a[0]); let k = opt_isize(a[1])?; try_run(|| o.diagflat(k)) }
+        "diag_diag" => { let o = arr(a[0]); let k = opt_isize(a[1])?; try_run(|| o.diag(k).and_then(|m| m.diag(k))) }
+        _ => return None,
+    };
+    match r { Ok(r) => Some(cmp_giant(&r, &want)), Err(()) => Some(Verdict::Mismatch { observed: "panic".into(), detail: "giant case: the call panicked".into() }) }
+}
+
+/// giant cases on a plain element type: vander, the sequences, rand
+fn giant_p<T: Elem>(op: &str, a: &[&str]) -> Option<Verdict> {
+    let mism = |observed: String, detail: String| Some(Verdict::Mismatch { observed, detail: format!("giant case, harness-native reference: {detail}") });
+    let okm = |n: usize| Some(Verdict::Match(format!("ok native (giant: {n} elements compared in place with the harness-native reference)")));
+    let seq_arr = |r: Result<Result<Array<T>, ArrayError>, ()>| -> Result<Vec<T>, Option<Verdict>> {
+        match r {
+            Err(()) => Err(mism("panic".into(), "the call panicked".into())),
+            Ok(Err(e)) => Err(mism(format!("err {}", err_name(&e)), "the reference has a sequence".into())),
+            Ok(Ok(arr)) => { let e = arr.get_elements().unwrap(); if !consistent(&arr) || arr.get_shape().unwrap() != vec![e.len()] { Err(mism("ok".into(), "not a consistent 1-D array".into())) } else { Ok(e) } }
+        }
+    };
+    match op {
+        "vander" => {
+            let want = match oracle(op, a)? { Ok(o) => o, Err(()) => return None };
+            let (sh, src) = src_of(a[0]);
+            let n: usize = sh.iter().product();
+            let o = Array::new((0..n).map(|p| T::of_f(src(p) as f64)).collect::<Vec<T>>(), sh).expect("harness: giant source");
+            let (cols, inc) = (opt_usize(a[1])?, opt_bool(a[2])?);
+            match try_run(|| o.vander(cols, inc)) {
+                Err(()) => mism("panic".into(), "the call panicked".into()),
+                Ok(Err(e)) => mism(format!("err {}", err_name(&e)), "the reference has a result".into()),
+                Ok(Ok(r)) => {
+                    if !consistent(&r) || r.get_shape().unwrap() != want.shape { return mism(format!("ok shape {}", show_list(&r.get_shape().unwrap())), format!("shape: the reference has {}", show_list(&want.shape))) }
+                    let e = r.get_elements().unwrap();
+                    for (p, x) in e.iter().enumerate() { let w = (want.at)(p); if !same_f64(x.f(), T::of_f(w as f64).f()) { return mism(format!("{:?}", x.f()), format!("flat position {p}: the power is {w}")) } }
+                    okm(e.len())
+                }
+            }
+        }
+        "rand" => {
+            let s = parse_usize_list(a[0]);
+            match try_run(|| Array::<T>::rand(s.clone())) {
+                Err(()) => mism("panic".into(), "the call panicked".into()),
+                Ok(Err(e)) => mism(format!("err {}", err_name(&e)), "the reference has a result".into()),
+                Ok(Ok(r)) => {
+                    let e = r.get_elements().unwrap();
+                    if !consistent(&r) || r.get_shape().unwrap() != s || e.len() != s.iter().product::<usize>() { return mism("ok".into(), "shape / count are not the requested ones".into()) }
+                    if let Some(p) = e.iter().position(|x| !(x.f() >= 0.0 && x.f() <= 1.0)) { return mism(format!("{:?}", e[p].f()), format!("flat position {p} outside the unit interval")) }
+                    okm(e.len())
+                }
+            }
+        }
+        "arange" | "m_arange" => {
+            let (s, t, st) = (whole(a[0])?, whole(a[1])?, if a[2] == "none" { None } else { Some(whole(a[2])?) });
+            let (cnt, f) = nat_arange(s, t, st)?;
+            let (sv, tv, stv) = (T::of_f(s as f64), T::of_f(t as f64), st.map(|x| T::of_f(x as f64)));
+            let is_macro = op == "m_arange";
+            let e = match seq_arr(try_run(move || if is_macro { match stv { None => array_arange!(T, sv, tv), Some(x) => array_arange!(T, sv, tv, x) } } else { Array::<T>::arange(sv, tv, stv) })) { Ok(e) => e, Err(v) => return v };
+            match seq_check(&e, cnt, &*f, 0.0, true, false) { Ok(()) => okm(cnt), Err(d) => mism(format!("{} terms", e.len()), d) }
+        }
+        "linspace" => {
+            let (s, t, n, ep) = (whole(a[0])?, whole(a[1])?, opt_usize(a[2])?, opt_bool(a[3])?);
+            let (cnt, epb, f) = nat_linspace(s, t, n, ep)?;
+            let (sv, tv) = (T::of_f(s as f64), T::of_f(t as f64));
+            let e = match seq_arr(try_run(move || Array::<T>::linspace(sv, tv, n, ep))) { Ok(e) => e, Err(v) => return v };
+            let tol = 4.0 * ulp_scale((s as f64).abs().max((t as f64).abs())) * (T::EPS / f64::EPSILON);
+            match seq_check(&e, cnt, &*f, tol, false, epb) { Ok(()) => okm(cnt), Err(d) => mism(format!("{} points", e.len()), d) }
+        }
+        "geomspace" | "logspace" => {
+            let (s, t, n, ep) = (whole(a[0])?, whole(a[1])?, opt_usize(a[2])?, opt_bool(a[3])?);
+            let (sv, tv) = (T::of_f(s as f64), T::of_f(t as f64));
+            let (first, last, bf) = if op == "geomspace" { (sv.f(), tv.f(), 0.0) } else { let bf = opt_usize(a[4])?.unwrap_or(10) as f64; (bf.powf(sv.f()), bf.powf(tv.f()), bf) };
+            let b = if op == "logspace" { opt_usize(a[4])? } else { None };
+            let is_geo = op == "geomspace";
+            let e = match seq_arr(try_run(move || if is_geo { Array::<T>::geomspace(sv, tv, n, ep) } else { Array::<T>::logspace(sv, tv, n, ep, b) })) { Ok(e) => e, Err(v) => return v };
+            let (cnt, epb, f) = nat_geom(first, last, n, ep);
+            if let Err(d) = pow_check(&e, cnt, &|i| Ok((f(i), "the harness-native formula first * ((last / first)^(1/d))^i".to_string())), first, last, epb) { return mism(format!("{} points", e.len()), d) }
+            if !is_geo && T::FLOAT { if let Some((o, d)) = logspace_stmt_check(&e, sv.f(), tv.f(), bf, epb) { return mism(o, d) } }
+            okm(cnt)
+        }
+        _ => None,
+    }
+}
+
+/// `n_<op> <type> args…`: more than 2^20 elements; the driver answered `ok native`
+fn exec_giant(op: &str, args: &[&str], expected: &str) -> Option<Verdict> {
+    if expected != "ok native" { return Some(compare_default("harness: an `n_` line expects the driver to answer `ok native`".into(), expected)); }
+    let (ty, a) = args.split_first()?;
+    let t0 = std::time::Instant::now();
+    let v = match *ty {
+        "i32" => giant_p::<i32>(op, a), "i64" => giant_p::<i64>(op, a), "u8" => giant_p::<u8>(op, a), "f64" => giant_p::<f64>(op, a), "f32" => giant_p::<f32>(op, a),
+        "i8v" => giant_v::<i8>(op, a), "i16v" => giant_v::<i16>(op, a), "i32v" => giant_v::<i32>(op, a), "i64v" => giant_v::<i64>(op, a),
+        "isizev" => giant_v::<isize>(op, a), "u8v" => giant_v::<u8>(op, a), "u16v" => giant_v::<u16>(op, a), "u32v" => giant_v::<u32>(op, a),
+        "u64v" => giant_v::<u64>(op, a), "usizev" => giant_v::<usize>(op, a), "f32v" => giant_v::<f32>(op, a), "f64v" => giant_v::<f64>(op, a),
+        _ => None,
+    };
+    GIANT.with(|c| c.set(c.get() + 1));
+    GIANT_MS.with(|c| c.set(c.get() + t0.elapsed().as_millis() as u64));
+    v
+}
+
+fn exec_report(args: &[&str], expected: &str) -> Option<Verdict> {
+    if expected != "ok report" { return Some(compare_default("harness: a report line expects the driver to answer `ok report`".into(), expected)); }
+    let (ok, none, seq, giant, ms, big) = (ORA_OK.with(|c| c.get()), ORA_NONE.with(|c| c.get()), SEQ_OK.with(|c| c.get()), GIANT.with(|c| c.get()), GIANT_MS.with(|c| c.get()), BIG_CHECKS.with(|c| c.get()));
+    let text = format!("ok report: native reference = model on {ok} structural cases (no opinion {none}), native sequence formulas = model on {seq} cases, {giant} giant cases judged in place ({:.1} s), {big} big-division checks", ms as f64 / 1000.0);
+    if args.first() == Some(&"final") && (ok < 1000 || seq < 300) {
+        return Some(Verdict::Mismatch { observed: text, detail: "the native reference was relied upon without having been compared with the model on at least 1000 structural and 300 sequence cases of this run".into() });
+    }
+    Some(Verdict::Match(text))
+}
+
 thread_local! {
     /// the previous case of this thread (op, arguments, model answer, what the crate answered) — for the A–B–A discipline
     static PREV: std::cell::RefCell<Option<(String, Vec<String>, String, String)>> = const { std::cell::RefCell::new(None) };
@@ -548,6 +967,22 @@ fn verdict_text(v: &Option<Verdict>) -> String {
 /// A–B–A: every third case B is followed by a re-run of the case A executed just before it; the crate must answer A exactly as it did
 /// the first time (a memo / cache that survives a call makes the answer depend on the call in between).
 fn exec(op: &str, args: &[&str], expected: &str) -> Option<Verdict> {
+    // `VERIF_SLOW=<seconds>`: print the case lines that take longer to stderr (timing of the slowest cases)
+    let t0 = std::time::Instant::now();
+    let v = exec_timed(op, args, expected);
+    if let Some(lim) = std::env::var("VERIF_SLOW").ok().and_then(|s| s.parse::<f64>().ok()) {
+        let dt = t0.elapsed().as_secs_f64();
+        if dt > lim { eprintln!("SLOW {dt:.3}s {op} {}", truncate(&args.join(" "), 200)); }
+    }
+    v
+}
+
+fn exec_timed(op: &str, args: &[&str], expected: &str) -> Option<Verdict> {
+    // giant cases and report lines are not re-run (cost; the report text changes from call to call)
+    if op.starts_with("n_") || op == "oracle_report" {
+        PREV.with(|p| *p.borrow_mut() = None);
+        return match op.strip_prefix("n_") { Some(gop) => exec_giant(gop, args, expected), None => exec_report(args, expected) };
+    }
     let mut out = exec_case(op, args, expected);
     let seq = SEQ.with(|s| { let x = s.get() + 1; s.set(x); x });
     let prev = PREV.with(|p| p.borrow_mut().take());
@@ -570,6 +1005,17 @@ fn exec(op: &str, args: &[&str], expected: &str) -> Option<Verdict> {
 }
 
 fn exec_case(op: &str, args: &[&str], expected: &str) -> Option<Verdict> {
+    let v = exec_case0(op, args, expected);
+    // the native reference of the giant cases is compared with the model's full answer on every ordinary case
+    if let (Some(Verdict::Match(_)) | Some(Verdict::Open(_)), Some((_, rest))) = (&v, args.split_first()) {
+        if let Some(d) = validate_oracle(op, rest, expected) {
+            return Some(Verdict::Mismatch { observed: "ORACLE-VS-MODEL".into(), detail: format!("ORACLE-VS-MODEL {d} (harness defect: the native reference is not usable)") });
+        }
+    }
+    v
+}
+
+fn exec_case0(op: &str, args: &[&str], expected: &str) -> Option<Verdict> {
     let (ty, rest) = args.split_first()?;
     match *ty {
         "i32" => run::<i32>(op, rest, expected),
@@ -968,7 +1414,194 @@ fn gen_streams2(out: &mut dyn FnMut(String), rng: &mut Rng, thorough: bool) {
     let _ = rng;
 }
 
+// ------------------------------------------------------------------------------------------------ robustness streams, part 3
+
+/// explicit array text `shape:values` from a value function
+fn lit(sh: &[usize], f: impl Fn(usize) -> i64) -> String {
+    let n: usize = sh.iter().product();
+    format!("{}:{}", show_list(sh), show_list(&(0..n).map(&f).collect::<Vec<i64>>()))
+}
+
+fn gen_streams3(out0: &mut dyn FnMut(String), rng: &mut Rng, thorough: bool) {
+    // giant lines are spelt `n_<op> <type> args…` on the wire (one statistics / replay bucket per operation)
+    let out = &mut |l: String| out0(match l.strip_prefix("n ") { Some(r) => format!("n_{r}"), None => l });
+    let ends = ["none", "true", "false"];
+    // ---- (13) values related in a way random data never is
+    // (a) every element == 0 but not bit-identical: +0.0 (tag 0) / -0.0 (palette tag 1) mixtures on the float types; all-zero sources on
+    // integer types.  A shortcut for "all elements equal" / "nothing to mask" keeps -0.0 where the mask must write +0.0.
+    let pats: [(&str, fn(usize) -> i64); 5] = [("all-neg", |_| 1), ("checker", |p| (p % 2) as i64), ("first-neg", |p| (p == 0) as i64), ("checker2", |p| ((p + 1) % 2) as i64), ("all-pos", |_| 0)];
+    for sh in [vec![2usize, 2], vec![3, 4], vec![4, 3], vec![2, 3, 3], vec![1, 5], vec![5, 1], vec![7, 9], vec![6]] {
+        for (name, f) in pats {
+            let a = lit(&sh, f);
+            for ty in ["f64v", "f32v", "i64v", "u8v"] {
+                if !ty.starts_with('f') && name != "all-pos" && name != "checker" { continue }
+                for k in ["none", "-1", "0", "1", "2"] {
+                    out(format!("tril {ty} {a} {k}")); out(format!("triu {ty} {a} {k}"));
+                    if sh.len() <= 2 { out(format!("diag {ty} {a} {k}")); }
+                    if k != "2" { out(format!("diagflat {ty} {a} {k}")); }
+                    if sh.len() == 1 { out(format!("diag_diag {ty} {a} {k}")); }
+                }
+                // (reassembly needs a source without the zero tag: at a +0.0 input both parts hold the input's bits)
+                if name == "all-neg" { for k in [-1, 0, 1] { out(format!("tril_plus_triu {ty} {a} {k}")); } }
+                out(format!("zeros_like {ty} {a}")); out(format!("ones_like {ty} {a}")); out(format!("full_like {ty} {a} 1")); out(format!("full_like {ty} {a} 0")); out(format!("full_like {ty} {a} 5"));
+            }
+        }
+    }
+    // (b) constant sources (every palette class as the constant), and a fill value equal to the source's first / every element
+    let vt: Vec<&str> = if thorough { VTYPES.to_vec() } else { vec!["i64v", "f64v", "u8v", "i16v", "f32v", "usizev"] };
+    for ty in &vt {
+        for c in [1i64, 2, 4, 7, 10] {
+            for sh in [vec![3usize, 4], vec![4, 3], vec![2, 3, 3], vec![5], vec![9, 7]] {
+                let a = lit(&sh, |_| c);
+                if sh.len() >= 2 { for k in ["none", "1", "-1", "-3"] { out(format!("tril {ty} {a} {k}")); out(format!("triu {ty} {a} {k}")); } out(format!("tril_plus_triu {ty} {a} 0")); out(format!("tril_plus_triu {ty} {a} -2")); }
+                if sh.len() <= 2 { for k in ["none", "1", "-2"] { out(format!("diag {ty} {a} {k}")); } }
+                out(format!("diagflat {ty} {a} 1"));
+                if sh.len() == 1 { out(format!("diag_diag {ty} {a} -1")); }
+                out(format!("full_like {ty} {a} {c}")); out(format!("full_like {ty} {a} {}", c + 1)); out(format!("zeros_like {ty} {a}")); out(format!("ones_like {ty} {a}"));
+            }
+        }
+        for a in ["2,3:4,1,2,3,5,6", "2,3:1,1,1,1,1,4", "6:3,3,3,3,3,2", "2,2,2:7,7,7,7,7,7,7,1"] { for v in [4, 1, 3, 7] { out(format!("full_like {ty} {a} {v}")); } out(format!("zeros_like {ty} {a}")); out(format!("ones_like {ty} {a}")); }
+        for sh in [vec![3usize, 4], vec![7], vec![2, 2, 2]] { for v in [0, 1, 2] { out(format!("full {ty} {} {v}", show_list(&sh))); } }
+    }
+    for ty in ["i32", "i64", "u8", "f64", "f32"] {
+        for len in [1usize, 4, 7] { for c in [0i64, 1, 2] { for cols in ["none", "3", "5"] { for inc in ["none", "true", "false"] {
+            out(format!("vander {ty} {} {cols} {inc}", lit(&[len], |_| c)));
+        } } } }
+    }
+    // (c) sequences whose two bounds are equal (a constant sequence: step 0, ratio 1)
+    for v in ["7", "200", "1", "0"] { for n in ["none", "0", "1", "2", "3", "4", "6"] { for e in ends { for ty in ROTATION {
+        out(format!("linspace {ty} {v} {v} {n} {e}")); out(format!("geomspace {ty} {v} {v} {n} {e}"));
+        if v.len() == 1 && v != "7" { out(format!("logspace {ty} {v} {v} {n} {e} none")); out(format!("logspace {ty} {v} {v} {n} {e} 2")); }
+    } } } for ty in ROTATION { for st in ["none", "1", "3"] { out(format!("arange {ty} {v} {v} {st}")); } } }
+
+    // ---- (15) offsets so large that offset * stride wraps modulo 2^64 back into range: k = mult * 2^64 / s + small for every
+    // stride-like quantity s of the matrix (rows, columns, element count, columns + 1, rows + 1); the ends of the usize / isize ranges
+    let two64: u128 = 1u128 << 64;
+    for (n, m) in [(3usize, 4usize), (4, 3), (5, 5), (2, 8), (8, 2), (3, 5), (7, 3)] {
+        let mut ks: Vec<u128> = vec![];
+        for s in [n, m, n * m, m + 1, n + 1] { for mult in 1..=3u128 {
+            let base = (two64 * mult + s as u128 - 1) / s as u128;
+            for small in [0u128, 1, 2, m as u128] { ks.push(base + small); }
+        } }
+        ks.extend([u64::MAX as u128, u64::MAX as u128 - 1, u64::MAX as u128 - m as u128 + 1, 1u128 << 63, (1u128 << 63) + 1, (1u128 << 63) - 1, (1u128 << 63) - 2]);
+        ks.sort(); ks.dedup();
+        let a = tag_off(&[n, m], 1);
+        for k in ks {
+            if k <= u64::MAX as u128 { for ty in ["i64", "u8v"] { out(format!("eye {ty} {n} {m} {k}")); } out(format!("m_eye i32 {n} {m} {k}")); }
+            if k <= i64::MAX as u128 {
+                for sg in ["", "-"] { for ty in ["i64", "f64v"] {
+                    out(format!("tri {ty} {n} {m} {sg}{k}")); out(format!("tril {ty} {a} {sg}{k}")); out(format!("triu {ty} {a} {sg}{k}")); out(format!("diag {ty} {a} {sg}{k}"));
+                    if k < i64::MAX as u128 { out(format!("tril_plus_triu {ty} {a} {sg}{k}")); }
+                } }
+                out(format!("diag i64 {} {k}", tag_off(&[n], 1))); out(format!("diagflat i64 {a} -{k}"));
+            }
+        }
+    }
+
+    // ---- (11) more than 2^20 elements: `n <op> <type> args…`, judged in place by the harness-native reference
+    let gts = ["i64v", "f64v", "u8v", "i16v", "f32v", "u32v", "usizev", "i8v"];
+    let gs = giant_shapes();
+    for (i, sh) in gs.iter().enumerate() {
+        let (a, shs) = (tag_off(sh, 1), show_list(sh));
+        let tys: Vec<&str> = if thorough { gts.to_vec() } else { vec![gts[i % 6], gts[(i + 3) % 6]] };
+        for (j, ty) in tys.iter().enumerate() {
+            // fills: one or two per (shape, type) in the quick tier, every one in the thorough tier
+            let fills = [format!("full {ty} {shs} 9"), format!("zeros {ty} {shs}"), format!("ones {ty} {shs}"), format!("full_like {ty} {a} 4"), format!("zeros_like {ty} {a}"), format!("ones_like {ty} {a}"), format!("m_full {ty} {shs} 6"),
+                         if sh.len() <= 3 { format!("m_zeros {ty} {shs}") } else { format!("zeros {ty} {shs}") }, if sh.len() <= 3 { format!("m_ones {ty} {shs}") } else { format!("ones {ty} {shs}") }];
+            for (f, l) in fills.iter().enumerate() { if thorough || f == (i + 4 * j) % 9 { out(format!("n {l}")); } }
+            if sh.len() >= 2 {
+                let (r, c) = (sh[sh.len() - 2] as i64, sh[sh.len() - 1] as i64);
+                // offsets through the last rows / columns (the corner block and the tails of a blocked path), the main diagonal, far outside
+                let ks: Vec<i64> = if thorough { vec![0, 1, -1, c - 1, 1 - r, c - r, c - r + 1, c / 2, -(r / 2), c - 70, 70 - r, c + 5, -r - 5] } else if j == 0 { vec![c - r, 1 - r / 2] } else { vec![c - 3, 0] };
+                for (x, k) in ks.iter().enumerate() {
+                    if thorough || x == 0 { out(format!("n tril {ty} {a} {k}")); out(format!("n triu {ty} {a} {k}")); }
+                    else { out(format!("n {} {ty} {a} {k}", if (i + j) % 2 == 0 { "tril" } else { "triu" })); }
+                }
+                if thorough || j == 0 { out(format!("n tril_plus_triu {ty} {a} {}", ks[0] - 1)); }
+                if thorough { out(format!("n tril {ty} {a} none")); out(format!("n triu {ty} {a} none")); }
+            }
+            if sh.len() == 2 {
+                let (r, c) = (sh[0] as i64, sh[1] as i64);
+                let ks: Vec<i64> = if thorough { vec![0, 1, -1, c - 1, 1 - r, c - 2, 2 - r, c, -r] } else if j == 0 { vec![0, c - 2] } else { vec![2 - r, -1] };
+                for k in ks { out(format!("n diag {ty} {a} {k}")); }
+                if thorough || j == 0 { out(format!("n diag {ty} {a} none")); }
+            }
+        }
+    }
+    // results above 2^20 elements from small arguments: diag / diagflat of a vector (side > 1024), eye / tri / identity
+    for (i, (len, k)) in [(1025usize, 0i64), (1020, -5), (1449, 1), (1030, 3), (1024, 1), (1100, -349)].into_iter().enumerate() {
+        if !thorough && i >= 4 { continue }
+        let tys: Vec<&str> = if thorough { gts.to_vec() } else { vec![gts[i % 6]] };
+        for ty in tys {
+            out(format!("n diag {ty} {} {k}", tag_off(&[len], 1)));
+            if thorough || i == 0 { out(format!("n diag_diag {ty} {} {k}", tag_off(&[len], 1))); out(format!("n diagflat {ty} {} {k}", tag_off(&[len / 25, 25], 1))); }
+        }
+    }
+    for (i, (n, m, k)) in [(1025usize, 1025usize, 0i64), (3, 400_001, 399_999), (400_001, 3, 1), (1031, 1033, 2), (2, 524_293, 524_291), (1500, 1400, 1399), (1449, 1449, 1448), (1050, 1000, 63)].into_iter().enumerate() {
+        if !thorough && i >= 5 { continue }
+        let tys: Vec<&str> = if thorough { gts.to_vec() } else { vec![gts[(i + 1) % 6]] };
+        for ty in tys {
+            out(format!("n eye {ty} {n} {m} {k}")); out(format!("n tri {ty} {n} {m} {k}")); out(format!("n tri {ty} {n} {m} {}", m as i64 - n as i64 - k));
+            if thorough { out(format!("n m_eye {ty} {n} {m} {k}")); out(format!("n eye {ty} {n} {m} 0")); out(format!("n tri {ty} {n} {m} -{k}")); }
+        }
+    }
+    for (i, n) in [1025usize, 1449, 1088].into_iter().enumerate() {
+        if !thorough && i >= 2 { continue }
+        let tys: Vec<&str> = if thorough { gts.to_vec() } else { vec![gts[(i + 2) % 6]] };
+        for ty in tys { out(format!("n identity {ty} {n}")); if thorough || i == 0 { out(format!("n m_identity {ty} {n}")); } }
+    }
+    // vander, rand and the sequences on the plain element types
+    let pts: Vec<&str> = if thorough { vec!["i64", "f64", "i32", "u8", "f32"] } else { vec!["i64", "f64"] };
+    for ty in &pts {
+        out(format!("n vander {ty} m3x350001 3 {}", if *ty == "i64" { "none" } else { "true" }));
+        if thorough { out(format!("n vander {ty} m3x350001 3 false")); out(format!("n vander {ty} m2x209716 5 none")); out(format!("n vander {ty} m3x1048581 1 true")); }
+        out(format!("n rand {ty} {}", show_list(&gs[if *ty == "i64" { 3 } else { 0 }])));
+        if thorough { for sh in &gs { out(format!("n rand {ty} {}", show_list(sh))); } }
+    }
+    let counts: Vec<usize> = if thorough { vec![(1 << 20) + 5, (1 << 20) + 64, 1_200_003, 2_097_153] } else { vec![(1 << 20) + 5, 2_097_153] };
+    for (i, n) in counts.iter().enumerate() {
+        for ty in if thorough { vec!["f64", "i32", "f32", "u8", "i64"] } else { vec![["f64", "i32"][i % 2], "f32"] } {
+            let (s, t) = if ty == "u8" { ("0", "200") } else { ("-3", "1000") };
+            for e in if thorough { ends.to_vec() } else { vec![ends[i % 3], "false"] } {
+                out(format!("n linspace {ty} {s} {t} {n} {e}"));
+                if thorough { out(format!("n linspace {ty} 0 1 {n} {e}")); }
+            }
+        }
+        for ty in if thorough { vec!["f64", "f32", "i32"] } else { vec!["f64"] } {
+            let e = ends[(i + 1) % 3];
+            out(format!("n geomspace {ty} 1 200 {n} {e}")); out(format!("n logspace {ty} 0 2 {n} {e} none"));
+            if thorough { out(format!("n geomspace {ty} 200 3 {n} false")); out(format!("n logspace {ty} 0 5 {n} true 2")); }
+        }
+        for ty in if thorough { vec!["i64", "f64", "i32"] } else { vec![["i64", "f64"][i % 2]] } {
+            out(format!("n arange {ty} 0 {} 1", n - 1)); out(format!("n m_arange {ty} 5 {} 7", 7 * n - 3));
+            if thorough { out(format!("n arange {ty} -{n} {n} 2")); out(format!("n arange {ty} 0 {} none", n + 1)); }
+        }
+    }
+    // lengths above 2^24 (a count / index converted through f32 is exact up to 16 777 216 and on every EVEN number up to 2^25: the
+    // divisor num - endpoint resp. the term count is ODD here).  Narrow integer element types keep the memory small and, unlike an
+    // f32 result, resolve a relative error of 2^-24 in the step (exact truncation at every whole-number crossing).
+    out(format!("n linspace u8 0 200 {} none", (1 << 24) + 2)); out(format!("n linspace i32 -3 1000 {} false", (1 << 24) + 3));
+    out(format!("n arange i32 0 {} 1", (1 << 24) + 2));
+    if thorough {
+        out(format!("n linspace i32 -3 1000 {} true", (1 << 24) + 4)); out(format!("n linspace u8 0 255 {} false", (1 << 24) + 5));
+        out(format!("n geomspace f32 1 200 {} none", (1 << 24) + 2)); out(format!("n logspace f32 0 2 {} false none", (1 << 24) + 3));
+        out(format!("n arange f32 0 {} 1", (1 << 24) + 2)); out(format!("n m_arange i32 3 {} 2", (1 << 25) + 9));
+        out(format!("n zeros u8v {}", (1 << 24) + 3)); out(format!("n full u8v 3,{} 5", (1 << 23) / 3 * 2 + 1001)); out(format!("n tril u8v {} 4", tag_off(&[4099, 4099], 1))); out("n eye u8v 4099 4099 3".to_string());
+    }
+    let _ = rng;
+}
+
+/// the case stream with the two report lines of the native reference: one at the position of the last evidence sample, one at the end
 fn gen(tier: &str, seed: u64, out: &mut dyn FnMut(String)) {
+    let mut lines: Vec<String> = vec![];
+    gen_all(tier, seed, &mut |l| lines.push(l));
+    let stride = ((lines.len() + 2) / 12).max(1);
+    lines.insert((11 * stride).min(lines.len()), "oracle_report".to_string());
+    lines.push("oracle_report final".to_string());
+    for l in lines { out(l); }
+}
+
+fn gen_all(tier: &str, seed: u64, out: &mut dyn FnMut(String)) {
     let thorough = tier == "thorough";
     let hi: usize = if thorough { 8 } else { 6 };          // matrix sides 0..=hi
     let koff: isize = if thorough { 9 } else { 7 };        // diagonal offsets -koff..=koff
@@ -1098,6 +1731,9 @@ fn gen(tier: &str, seed: u64, out: &mut dyn FnMut(String)) {
     // ---- robustness streams, part 2: hidden state (types back to back, refused-then-valid, colliding shapes), extreme magnitudes,
     // exact lengths and offsets, ranks to 8, huge results
     gen_streams2(out, &mut rng, thorough);
+    // ---- robustness streams, part 3: value relations (all-equal-not-identical, constant sources, equal bounds), offsets that wrap
+    // modulo 2^64, results above 2^20 elements / sequences above 2^24 points through the harness-native reference (`n` lines)
+    gen_streams3(out, &mut rng, thorough);
     // ---- seeded random stream beyond the exhaustive scope
     let n_rand = if thorough { 6000 } else { 1200 };
     for _ in 0..n_rand {
@@ -1138,6 +1774,7 @@ fn gen(tier: &str, seed: u64, out: &mut dyn FnMut(String)) {
 /// non-trivial: the case builds (or reads) something with at least two elements — a matrix with both sides >= 2,
 /// a sequence of >= 2 points, a fill of >= 2 elements
 fn nontrivial(op: &str, args: &[&str]) -> bool {
+    if op.starts_with("n_") { return true; }
     if args.len() < 2 { return false; }
     let a = &args[1..];
     let cnt = |s: &str| -> usize { if s.contains(':') || s.starts_with('i') { parse_arr_raw(s).0.iter().product() } else { parse_usize_list(s).iter().product() } };
